@@ -340,3 +340,161 @@ contract(
     ],
     concretize=concretize_vault, gen=gen_vault,
 )
+
+
+# ------------------------------------------------------------------ make_cache_map, _compute_row_cache, Row.rstrip (C17, C02)
+from pyvc.lists import LLeaf, LRev, LWrap  # noqa: E402
+from pyvc.spec import IntList  # noqa: E402
+
+
+def _pairs_maker(en, name, **kw):
+    """idx_repeated_seq: [(0, r0), (1, r1), ...] of symbolic length, as a list of tuples"""
+    n = z3.Int(name + ".len")
+    en.pc.append(n >= 0)
+    reps = LLeaf(z3.Array(name + ".reps", z3.IntSort(), z3.IntSort()), n, name)
+    idx = z3.FreshInt("ix")
+
+    class _Pairs(L.LT):
+        def length(self_):
+            return n
+
+        def sel(self_, j):
+            return (L.simp_int(L.zint(j)), reps.sel(j))
+    lv = ListV(_Pairs())
+    lv.reps = reps
+    return lv
+
+
+def _mcm_post(a, r, p):
+    reps = a.idx_repeated_seq.ref.reps if hasattr(a.idx_repeated_seq, "ref") else None
+    if reps is None:
+        seq = a.idx_repeated_seq
+        exp, acc = [], -1
+        for _i, rep in seq:
+            acc += rep or 1
+            exp.append(acc)
+        return list(r) == exp
+    n = reps.length()
+    return z3.And(lift(r.n) == n,
+                  S.forall(lambda i: r[i] - z3.If(i > 0, r[i - 1], -1) == reps.sel(i), 0, n, pats=lambda i: [r[i]]))
+
+
+def _mcm_inv(a, v):
+    reps = a.idx_repeated_seq.ref.reps
+    c, k = v.cache_amp, v.k_
+    return z3.And(lift(c.n) == k,
+                  S.forall(lambda i: c[i] - z3.If(i > 0, c[i - 1], -1) == reps.sel(i), 0, k, pats=lambda i: [c[i]]),
+                  strictly_inc(c))
+
+
+def strictly_inc(m):
+    from pyvc.spec import strictly_increasing
+    return strictly_increasing(m)
+
+
+def _reps_ok(a):
+    v = a.idx_repeated_seq
+    if hasattr(v, "ref") and hasattr(v.ref, "reps"):
+        reps = v.ref.reps
+        return S.forall(lambda i: reps.sel(i) >= 1, 0, reps.length(), pats=lambda i: [reps.sel(i)])
+    return all(i == j and (r or 1) >= 1 for j, (i, r) in enumerate(v))
+
+
+contract(
+    "odfdo.element_cached:make_cache_map",
+    sig=dict(idx_repeated_seq=Model("PairList", _pairs_maker)),
+    requires=_reps_ok,
+    ensures=[Clause("prefix-sums", {"C02", "C01", "C07", "C17"}, _mcm_post),
+             Clause("wf", {"C02", "C07"}, lambda a, r, p: strictly_inc(r) if isinstance(r, LView) else True)],
+    loops={0: Inv(_mcm_inv, modifies=["cache_amp", "odf_idx", "repeated"])},
+    result=IntList,
+    gen=lambda con, sc, count, seed: ({"idx_repeated_seq": [(i, r) for i, r in enumerate(reps)]}
+                                      for reps in ([], [1], [2, 1], [1, 3, 2], [5], [1, 1, 1, 4])),
+    note="a fresh parse builds its maps with this function: the result is the prefix sums of the repeats",
+)
+
+EMPTY_CELL = z3.Function("cell.is_empty", z3.IntSort(), z3.BoolSort(), z3.BoolSort())   # (content, aggressive)
+
+
+def _h_get_cells(en, con, vals, site):
+    row = vals["self"]
+    t = row.fields["__items_cells"]
+    return ListV(LWrap(t, lambda node: make_wrapper(en, item_classes()["cells"], lift(node))))
+
+
+def _h_is_empty(en, con, vals, site):
+    st = xstate(en)
+    agg = vals.get("aggressive", False)
+    return EMPTY_CELL(z3.Select(st.pl, vals["self"].fields["node"]), lift(agg) if not isinstance(agg, z3.ExprRef) else agg)
+
+
+def _h_elements_repeated_sequence(en, con, vals, site):
+    from specs.vault import _kind_of_scheme
+    vault = vals["self"]
+    kind = _kind_of_scheme(vals["xpath_instance"])
+    st = xstate(en)
+    t = vault.fields["__items_" + kind]
+    x = z3.FreshInt("x")
+    reps = L.LMap(t, x, z3.Select(st.rep, x))
+
+    class _Pairs(L.LT):
+        def length(self_):
+            return t.length()
+
+        def sel(self_, j):
+            return (L.simp_int(L.zint(j)), reps.sel(j))
+    lv = ListV(_Pairs())
+    lv.reps = reps
+    return lv
+
+
+_EXTR = dict(trusted=True, sig={})
+contract("odfdo.row:Row._get_cells", call=_h_get_cells, note="the cell nodes of the row in document order (XPath, lxml)", **_EXTR)
+contract("odfdo.cell:Cell.is_empty", call=_h_is_empty, note="emptiness is a function of the cell's content (abstract predicate)", **_EXTR)
+contract("odfdo.element:Element.elements_repeated_sequence", call=_h_elements_repeated_sequence,
+         note="(index, repeat) of the item nodes in document order (XPath + attribute read, lxml)", **_EXTR)
+
+
+def _rstrip_inv(a, v):
+    s0 = a.self.seq("cells")
+    cur = v.self.seq("cells")
+    n, k = zint(s0.n), v.k_
+    i = z3.FreshInt("i")
+    return z3.And(
+        lift(cur.n) == n - k,
+        S.forall(lambda j: cur[j] == s0[j], 0, n - k, pats=lambda j: [cur[j]]),
+        S.forall(lambda j: EMPTY_CELL(a.self.pl_of(s0[j]), lift(a.aggressive)), n - k, n, pats=lambda j: [s0[j]]),
+    )
+
+
+def _rstrip_post(a, r, p):
+    if not isinstance(a.self, VaultView):
+        cells0, cells1 = a.self.snap["cells"], p.self.snap["cells"]
+        m = len(cells1["ids"])
+        return cells1["ids"] == cells0["ids"][:m] and cells1["reps"] == cells0["reps"][:m] and cells1["pls"] == cells0["pls"][:m]
+    s0, s1 = a.self.seq("cells"), p.self.seq("cells")
+    m = zint(s1.n)
+    return z3.And(
+        m <= zint(s0.n),
+        S.forall(lambda j: z3.And(s1[j] == s0[j], p.self.rep_of(s0[j]) == a.self.rep_of(s0[j]),
+                                  p.self.pl_of(s0[j]) == a.self.pl_of(s0[j])), 0, m, pats=lambda j: [s1[j]]),
+        # only empty cells are removed, and the removal is maximal
+        S.forall(lambda j: EMPTY_CELL(a.self.pl_of(s0[j]), lift(a.aggressive)), m, s0.n, pats=lambda j: [s0[j]]),
+        z3.Or(m == 0, z3.Not(EMPTY_CELL(a.self.pl_of(s0[m - 1]), lift(a.aggressive)))),
+    )
+
+
+contract(
+    "odfdo.row:Row.rstrip",
+    sig=dict(self=_row(), aggressive=Bool),
+    requires=lambda a: inv_vault(a.self, "cells"),
+    inline={"odfdo.row:Row._compute_row_cache"},
+    ensures=[
+        Clause("keeps-prefix", {"C17"}, _rstrip_post),
+        Clause("inv", {"C17", "C02", "C07"}, lambda a, r, p: inv_vault(p.self, "cells")),
+        Clause("cache-reset", {"C02"}, lambda a, r, p: cache_reset(p.self, "_rmap")),
+    ],
+    loops={0: Inv(_rstrip_inv, modifies=["self", "cell"])},
+    concretize=concretize_vault, gen=gen_vault,
+    note="removes exactly the maximal suffix of empty cells; every remaining cell keeps node, repeat and content",
+)
